@@ -149,7 +149,7 @@ def check_case(case):
                     f"re-running the first accepted call {stp} on its (unchanged) input gives {outcome2} / a different result\nfirst:\n{printed}\nnow:\n{safe_str(q2) if q2 else d2}\nhistory={json.dumps(hist, default=str)}",
                 )
     return {
-        "nontrivial": len(recs) >= 2 and n_fail >= 1 and touched,
+        "nontrivial": len(recs) >= 2 and (n_fail >= 1 or touched),
         "digest": {"p": render_program(case["prog"]), "h": hist},
         "classes": [f"procs={min(len(recs), 8)}", f"failing={min(n_fail, 6)}", f"accepted={min(n_acc, 6)}", "touched-idx-or-callee" if touched else "plain"],
         "sample": {"program": render_program(case["prog"]), "history": hist},
